@@ -21,7 +21,7 @@ use std::time::{Duration, Instant};
 pub static META: PropMeta = PropMeta {
     id: "C03",
     level: "exploration",
-    rule: "cases: (a) sched: 1..4 actor threads with programs of ping/clone/drop (1..6 steps) on cloned Ping handles against a loop thread doing zero-timeout dispatches; the schedule (which thread advances at each yield site: before/after every eventfd write, before/after the drain read, between harness steps) is generated; optional handle kept alive by the harness. oracle on the logical clock of the controller: every ping that returned is followed by a callback that starts after the ping began; at most one callback per dispatch; every callback has a ping whose write can have landed after the previous drain; when all handles are gone the source removes itself (slot freed) and a 2 ms dispatch afterwards waits its full timeout; with a handle alive the source stays. (b) hist: single-thread histories of ping/clone/drop/disable/enable/dispatch judged by the history monitor. non-trivial (sched): some actor step is scheduled between the loop's drain read and the end of that dispatch, or a handle drop is scheduled between the write sites of another thread's ping; (hist): a ping handle dropped or a disable/enable with a ping pending. distinct by case fingerprint",
+    rule: "cases: (a) sched: 1..4 actor threads with programs of ping/clone/drop (1..6 steps) on cloned Ping handles against a loop thread doing zero-timeout dispatches; the schedule (which thread advances at each yield site: before/after every eventfd write, before/after the drain read, between harness steps) is generated; optional handle kept alive by the harness. oracle on the logical clock of the controller: every ping that returned is followed by a callback that starts after the ping began; at most one callback per dispatch; every callback has a ping whose write can have landed after the previous drain; when all handles are gone the source removes itself (slot freed) and a 2 ms dispatch afterwards waits its full timeout; with a handle alive the source stays. (b) hist: single-thread histories of ping/clone/drop/disable/enable/dispatch judged by the history monitor. (c) free: the same actor programs on 2..4 free-running OS threads released together by a spin barrier (real concurrency, for races whose window has no yield site) against the dispatching loop; oracle on CLOCK_MONOTONIC instants: every ping followed by a callback that started after it began, callbacks <= pings, none before the first ping, the source gone (or kept) after all actors finished and 3 more dispatches, no spinning afterwards. non-trivial (sched): some actor step is scheduled between the loop's drain read and the end of that dispatch, or a handle drop is scheduled between the write sites of another thread's ping; (hist): a ping handle dropped or a disable/enable with a ping pending. distinct by case fingerprint",
     assumptions: &[
         "interleavings are explored at the granularity of the yield sites of the hook commit, on x86-TSO with the real atomics; preemption inside a site-free region and weaker memory orderings are not explored",
         "a thread that blocks in the kernel is detected through /proc/self/task/<tid>/stat",
@@ -465,6 +465,137 @@ fn dfs(ctx: &CheckCtx, actors: Vec<Vec<AOp>>, keep_one: bool, loop_dispatches: u
     found
 }
 
+// ------------------------------------------------------------------------------------------ free-running stress
+//
+// The schedule check above owns the interleaving at yield-site granularity; a race whose window contains no
+// yield site (e.g. "read a handle count, then decrement it" in a Drop) is invisible to it. This sub-check
+// complements it: the same actor programs run on free OS threads released by a spin barrier, truly concurrently,
+// against the dispatching loop; the oracle uses CLOCK_MONOTONIC instants (globally ordered across threads).
+
+#[derive(Serialize, Deserialize, Debug, Clone, Hash)]
+pub struct FreeCase {
+    pub actors: Vec<Vec<AOp>>,
+    pub keep_one: bool,
+}
+
+fn free_strategy() -> impl Strategy<Value = FreeCase> {
+    (proptest::collection::vec(proptest::collection::vec(aop(), 0..=4), 2..=4), prop::bool::weighted(0.2))
+        .prop_map(|(actors, keep_one)| FreeCase { actors, keep_one })
+}
+
+pub fn run_free(case: &FreeCase) -> CaseOutcome {
+    use std::sync::atomic::AtomicUsize;
+    let mut info = CaseInfo { fingerprint: fingerprint(case), ..CaseInfo::default() };
+    let n = case.actors.len().clamp(1, 6);
+    let mut el: EventLoop<'static, Vec<Instant>> = EventLoop::try_new().expect("event loop");
+    let (ping, source) = make_ping().expect("make_ping");
+    el.handle().insert_source(source, |_, _, cbs: &mut Vec<Instant>| cbs.push(Instant::now())).expect("insert ping");
+    let keep = if case.keep_one { Some(ping.clone()) } else { None };
+    let go = Arc::new(AtomicUsize::new(0));
+    let done = Arc::new(AtomicUsize::new(0));
+    let pings: Arc<Mutex<Vec<(Instant, Instant)>>> = Arc::new(Mutex::new(Vec::new()));
+    let mut cbs: Vec<Instant> = Vec::new();
+    let mut last_wait = Duration::ZERO;
+    std::thread::scope(|sc| {
+        for prog in case.actors.iter().take(n) {
+            let mut mine = vec![ping.clone()];
+            let go = go.clone();
+            let done = done.clone();
+            let pings = pings.clone();
+            let prog = prog.clone();
+            sc.spawn(move || {
+                go.fetch_add(1, Ordering::SeqCst);
+                while go.load(Ordering::SeqCst) < n + 1 {
+                    std::hint::spin_loop();
+                }
+                for op in prog {
+                    match op {
+                        AOp::Ping => {
+                            if let Some(h) = mine.last() {
+                                let b = Instant::now();
+                                h.ping();
+                                pings.lock().unwrap().push((b, Instant::now()));
+                            }
+                        }
+                        AOp::Clone => {
+                            if let Some(h) = mine.last() {
+                                let c = h.clone();
+                                mine.push(c);
+                            }
+                        }
+                        AOp::Drop => {
+                            mine.pop();
+                        }
+                    }
+                }
+                // the remaining handles go away together with the thread's program
+                drop(mine);
+                done.fetch_add(1, Ordering::SeqCst);
+            });
+        }
+        drop(ping);
+        while go.load(Ordering::SeqCst) < n {
+            std::hint::spin_loop();
+        }
+        go.fetch_add(1, Ordering::SeqCst);
+        let t0 = Instant::now();
+        while done.load(Ordering::SeqCst) < n && t0.elapsed() < Duration::from_secs(20) {
+            el.dispatch(Some(Duration::ZERO), &mut cbs).expect("dispatch");
+        }
+    });
+    // every actor has finished and is joined: the source must settle within a few dispatches
+    for _ in 0..3 {
+        el.dispatch(Some(Duration::ZERO), &mut cbs).expect("dispatch");
+    }
+    let occupied = el.handle().verif_stats().occupied_slots;
+    if occupied == 0 {
+        let t = Instant::now();
+        el.dispatch(Some(Duration::from_millis(2)), &mut cbs).expect("dispatch");
+        last_wait = t.elapsed();
+    }
+    let pings = pings.lock().unwrap().clone();
+    info.nontrivial = n >= 2 && case.actors.iter().take(n).filter(|p| !p.is_empty()).count() >= 2;
+    info.classes.push("free_running");
+    if !case.keep_one {
+        info.classes.push("free_all_handles_dropped_concurrently");
+    }
+    info.counters.push(("free_pings", pings.len() as u64));
+    info.counters.push(("free_callbacks", cbs.len() as u64));
+    let mut viol = None;
+    for (b, _) in &pings {
+        if !cbs.iter().any(|s| s >= b) {
+            viol = Some(Violation::new("C03.served", format!("free-running: a ping that returned was never followed by a callback that started after it began ({} pings, {} callbacks)", pings.len(), cbs.len())));
+            break;
+        }
+    }
+    if viol.is_none() && cbs.len() > pings.len() {
+        viol = Some(Violation::new("C03.spurious", format!("free-running: {} callbacks for {} pings", cbs.len(), pings.len())));
+    }
+    if viol.is_none() {
+        if let Some(s) = cbs.iter().find(|s| !pings.iter().any(|(b, _)| b <= *s)) {
+            let _ = s;
+            viol = Some(Violation::new("C03.spurious", "free-running: a callback started before any ping had begun".to_string()));
+        }
+    }
+    if viol.is_none() {
+        let want = if case.keep_one { 1 } else { 0 };
+        if occupied != want {
+            viol = Some(Violation::new(
+                "C03.close",
+                format!(
+                    "free-running: after every actor finished (all {} handles dropped{}) and 3 more dispatches the loop holds {occupied} sources, expected {want}",
+                    if case.keep_one { "actor" } else { "" },
+                    if case.keep_one { ", one handle kept by the harness" } else { "" }
+                ),
+            ));
+        } else if occupied == 0 && last_wait < Duration::from_millis(2) {
+            viol = Some(Violation::new("C03.close", format!("free-running: a 2 ms dispatch after the source removed itself returned after {last_wait:?} (spinning)")));
+        }
+    }
+    drop(keep);
+    (info, viol)
+}
+
 pub fn check(ctx: &CheckCtx) -> Option<Found> {
     if let Some(f) = ctx.run_replays::<Case, _>("sched", run_case) {
         return Some(f);
@@ -472,8 +603,14 @@ pub fn check(ctx: &CheckCtx) -> Option<Found> {
     if let Some(f) = ctx.run_replays::<crate::hist::ops::HistCase, _>("hist", |c| run_case_for(&HIST, c)) {
         return Some(f);
     }
+    if let Some(f) = ctx.run_replays::<FreeCase, _>("free", run_free) {
+        return Some(f);
+    }
     let t = ctx.tier;
     if let Some(f) = ctx.search("sched", case_strategy(), t.pick(20_000, 300_000), 6, None, run_case) {
+        return Some(f);
+    }
+    if let Some(f) = ctx.search("free", free_strategy(), t.pick(3_000, 120_000), 4, None, run_free) {
         return Some(f);
     }
     // bounded-exhaustive: every schedule of tiny configurations
@@ -501,6 +638,10 @@ pub fn check(ctx: &CheckCtx) -> Option<Found> {
 pub fn replay(_ctx: &CheckCtx, sub: &str, case: serde_json::Value) -> Result<Option<Violation>, String> {
     if sub == "hist" {
         return hist_replay(&HIST, case);
+    }
+    if sub == "free" {
+        let c: FreeCase = serde_json::from_value(case).map_err(|e| e.to_string())?;
+        return Ok(run_free(&c).1);
     }
     let c: Case = serde_json::from_value(case).map_err(|e| e.to_string())?;
     Ok(run_case(&c).1)
